@@ -169,6 +169,15 @@ func TextMenu() []spec.Batch {
 		{ID: "t1"},
 		{ID: "p0", Fields: []spec.Field{dv(fld("a", 2, tok("x", 1), tok("y", 1))), dv(stored(fld("b", 1, tok("v", 1)), "b2"))}},
 	}}
+	vb2 := spec.Batch{Docs: []spec.Doc{
+		{ID: "v0", Fields: []spec.Field{
+			dv(fld("a", 128, tok("x", 64, spec.Loc{Pos: 128, Start: 127, End: 16384, AP: []uint64{128, 16383}}, spec.Loc{Pos: 16384, Start: 129, End: 255}), tok("y", 8192))),
+			stored(fld("b", 16384, tok("x", 1, spec.Loc{Pos: 127, Start: 128, End: 129})), "vee", 128, 16384),
+		}},
+		{ID: "v1", Fields: []spec.Field{
+			dv(fld("a", 127, tok("x", 1, spec.Loc{Pos: 1, Start: 0, End: 1}), tok("q", 1))),
+		}},
+	}}
 	return []spec.Batch{
 		{}, // M0 empty batch
 		{Docs: []spec.Doc{{ID: "o0", Fields: []spec.Field{stored(fld("a", 1, tok("x", 1)), "ex")}}}}, // M1 single doc, 1-hit eligible
@@ -177,6 +186,7 @@ func TextMenu() []spec.Batch {
 		ac2,  // M4 overlapping list, composite, location field translation
 		c1,   // M5 disjoint from M1, long array positions, empty term
 		ab3,  // M6 three docs, a document without fields, duplicate id across segments (p0)
+		vb2,  // M7 same field list as M2/M3; frequencies, lengths and location values at varint boundaries
 	}
 }
 
